@@ -9,11 +9,20 @@ overhead 16 like AES-GCM) against the real `store.NewOnDiskStore` in a temporary
       D<id>[,<id>…]              Delete                    -> ok | err:notfound
       L                          List                      -> ids:<sorted ids | ->
       K<n>                       reopen with passphrase n  -> ok
+      B<id>=<content>@<k>        begin a Set whose reader delivers the first k bytes and then waits: the Set is
+                                 in progress during the following ops        -> ok
+      E<id>                      the reader of the Set begun on <id> delivers the rest, then end of data -> ok
+      A<id>                      the reader of the Set begun on <id> fails instead  -> err:reader
+                                 (while a Set is in progress on <id>, S G D X B on that id and K answer bad-op:
+                                 through WriteControlledStore they would wait for the Set)
       X<id>:<kind>               alter the file            -> ok | err:notfound
          h<i> n<i>  flip header / nonce byte i      bf bm bl  flip first / middle / last body byte
          ch<m> cn<m> ca  keep m header bytes / header + m nonce bytes / header + nonce
          ct<m>  drop the last m (1..16) bytes       ap<m>  append m bytes
          bt  flip the first byte of the last sealed block     cm  cut the last sealed block to its first half
+    any result may carry the suffix `!changed:<i>` on the implementation side: the bytes the Get of op i returned
+    (kept by the runner) are no longer what they were when it returned them; the model never says that
+    (`C09.get_result_stable`)
     content:  z<n> zeros | t<n> text | r<n>.<seed> pseudo-random | x<hex>
               | c<part>+<part>+…  concatenation of z/t/r parts (contents of mixed compressibility: the generator
                 builds them so that a sealed-block boundary coincides with an LZ4 data-block boundary)
@@ -135,15 +144,49 @@ def alter (hl ns enc : Nat) (f : Bytes) (kind : String) : Option Bytes :=
     otherwise the alteration would be a forgery in the toy, which AES-GCM excludes (`Unforged`). -/
 def toyKey (n : Nat) : Nat := 1000 + 7 * n
 
+/-- a Set in progress: id, content, bytes delivered before the reader waits, the nonce drawn -/
+structure Flight where
+  id : Nat
+  content : Bytes
+  k : Nat
+  nonce : Bytes
+
 structure Sim where
   fs : FS := FS.empty
   key : Nat := toyKey 0
   sets : Nat := 0      -- number of Sets so far (derives the nonce)
+  flights : List Flight := []
+
+def Sim.inFlight (st : Sim) (id : Nat) : Bool := st.flights.any (·.id == id)
+
+/-- toy LZ4 piece size (the `L` of `prims`) -/
+def toyPiece : Nat := 65536
+
+/-- What of the compressed stream reached the write loop of `Set` when the reader failed after `k` bytes:
+    `lz4.Writer.ReadFrom` fills whole 64 KiB pieces with `io.ReadFull`, compresses and writes each; a read error
+    drops the incomplete piece, and `Close` on a writer in error state writes no end mark.  So: the frame of the
+    whole pieces delivered, without the end mark. -/
+def streamBeforeFailure (b : Bytes) (k : Nat) : Bytes :=
+  let whole := (min k b.length) / toyPiece * toyPiece
+  (prims.compress (b.take whole)).dropLast
+
+/-- the full blocks the write loop had sealed (`io.ReadAtLeast(…, blockSize)` returned without error) -/
+def fullBlocks (bs : Nat) (stream : Bytes) : List Bytes := (cut bs stream).filter (fun p => p.length == bs)
 
 def sortNat (l : List Nat) : List Nat := (l.toArray.qsort (· < ·)).toList
 
+/-- the ids an op works on (for the in-progress guard) -/
+def opIds (op : String) : List Nat :=
+  match op.toList with
+  | 'S' :: r | 'B' :: r => [nat! (((String.ofList r).splitOn "=").headD "")]
+  | 'G' :: r => [nat! (String.ofList r)]
+  | 'D' :: r => ((String.ofList r).splitOn ",").map nat!
+  | 'X' :: r => [nat! (((String.ofList r).splitOn ":").headD "")]
+  | _ => []
+
 def stepOp (st : Sim) (op : String) : Sim × String :=
   let s : Store Nat := { cfg := gluonCfg, P := prims, key := st.key }
+  if (opIds op).any st.inFlight || (op.startsWith "K" && !st.flights.isEmpty) then (st, "bad-op") else
   match op.toList with
   | 'S' :: r =>
     match (String.ofList r).splitOn "=" with
@@ -154,6 +197,33 @@ def stepOp (st : Sim) (op : String) : Sim × String :=
         ({ st with fs := s.set nonce st.fs (nat! id) b, sets := st.sets + 1 }, "ok")
       | none => (st, "bad-op")
     | _ => (st, "bad-op")
+  | 'B' :: r =>
+    match (String.ofList r).splitOn "=" with
+    | [id, ck] =>
+      match ck.splitOn "@" with
+      | [c, k] =>
+        match parseContent c with
+        | some b =>
+          let nonce := randBytes (1000 + st.sets) 12
+          -- the file exists under the id's name (O_CREATE|O_TRUNC, header written) from the start of the Set
+          ({ st with fs := Store.setInFlight st.fs (nat! id) gluonCfg.header, sets := st.sets + 1,
+                     flights := ⟨nat! id, b, nat! k, nonce⟩ :: st.flights }, "ok")
+        | none => (st, "bad-op")
+      | _ => (st, "bad-op")
+    | _ => (st, "bad-op")
+  | 'E' :: r =>
+    let id := nat! (String.ofList r)
+    match st.flights.find? (·.id == id) with
+    | some f =>
+      ({ st with fs := s.set f.nonce st.fs id f.content, flights := st.flights.filter (·.id != id) }, "ok")
+    | none => (st, "bad-op")
+  | 'A' :: r =>
+    let id := nat! (String.ofList r)
+    match st.flights.find? (·.id == id) with
+    | some f =>
+      let done := fullBlocks gluonCfg.blockSize (streamBeforeFailure f.content f.k)
+      ({ st with fs := s.setInterrupted f.nonce st.fs id done, flights := st.flights.filter (·.id != id) }, "err:reader")
+    | none => (st, "bad-op")
   | 'G' :: r =>
     match s.get st.fs (nat! (String.ofList r)) with
     | .ok b => (st, s!"ok:{digest b}")
